@@ -92,6 +92,7 @@ def run_case(case):
             decoded[(fmt, blanks)] = got
         if blanks:
             # the partition clause also holds with the default sliver threshold (whatever is absorbed)
+            decoded_def = {}
             for fmt in FORMATS:
                 what = f"save({fmt}, includeBlankSpaces=True, default minimumIntervalLength, {kw})"
                 text = iomodel.save_text(tg, fmt, True, **kw)
@@ -99,7 +100,9 @@ def run_case(case):
                     got = tgspec.read_any(text, fmt)
                 except (tgspec.SpecError, ValueError) as e:
                     raise Violation(f"malformed:{fmt}", f"{what}: independent reader: {e}; text={text[:400]!r}")
-                if gen.min_gap(spec) >= 1e-6 and got != decoded[(fmt, True)]:
+                decoded_def[fmt] = got
+                nothing_short = all(e[1] - e[0] >= 1e-6 for t in decoded[(fmt, True)]["tiers"] if t["class"] == "IntervalTier" for e in t["entries"])
+                if nothing_short and got != decoded[(fmt, True)]:
                     # nothing in this textgrid is anywhere near the default threshold: the threshold must not matter
                     raise Violation(f"default-threshold-changes-content:{fmt}", f"{what}: {got} != with the threshold disabled {decoded[(fmt, True)]}")
                 for t in got["tiers"]:
@@ -109,6 +112,11 @@ def run_case(case):
                     if ents[0][0] != got["xmin"] or ents[-1][1] != got["xmax"] or any(x[1] != y[0] for x, y in zip(ents, ents[1:])) \
                             or any(not e[0] < e[1] for e in ents):
                         raise Violation(f"partition-default-threshold:{fmt}", f"{what}: tier {t['name']!r} {ents} is not a partition of [{got['xmin']!r},{got['xmax']!r}]")
+            # ... and whatever is absorbed, it is absorbed alike in all four formats
+            if decoded_def["short_textgrid"] != decoded_def["long_textgrid"]:
+                raise Violation("formats-disagree:short-vs-long:default-threshold", f"{decoded_def['short_textgrid']} != {decoded_def['long_textgrid']}")
+            iomodel.compare_data(decoded_def["json"], decoded_def["textgrid_json"], "json vs textgrid_json (default threshold)", json_single_span=True, check_tier_spans=False, exact=True)
+            iomodel.compare_data(decoded_def["short_textgrid"], decoded_def["textgrid_json"], "short vs textgrid_json (default threshold)", check_tier_spans=False)
             if gen.min_gap(spec) < 1e-8:
                 cl.add("sliver_with_default_threshold")
             if any(t["type"] == "interval" and t["entries"] and t["entries"][0][1] <= 4e-9 for t in spec["tiers"]):
